@@ -1,7 +1,9 @@
 (* C09 — code without annotations is never reported. Statements only. *)
 From Coq Require Import List String ZArith Bool.
 From GG Require Import Base.Strs Model.Config Model.GoAst Model.RegexSyntax Model.Regex Model.Annot Model.Annots Model.Analyze
-                       Extracted Exec Proofs.ReaderProofs.
+                       Extracted Exec Proofs.ReaderProofs Proofs.RegexProofs.
+From Coq Require Import Ascii.
+From GG Require Properties.C15.
 Import ListNotations.
 Local Open Scope string_scope.
 
@@ -41,6 +43,43 @@ Proof.
   rewrite (silent_imm _ Hfs), (silent_ctor _ Hfs), (silent_tonl _ Hfs), (silent_pkgo _ Hfs). reflexivity.
 Qed.
 
+(* (3) by the grammar theorems of C15: a line is unrecognised as soon as it does not begin with blanks, two slashes, blanks
+   and one of the five keywords - in particular every line without an @ sign, every block comment, every line where
+   something other than blanks precedes the keyword, every keyword in another case *)
+Definition no_head (text : string) : Prop :=
+  forall k, In k ["@implements"; "@constructor"; "@immutable"; "@testonly"; "@packageonly"] ->
+            strip_head (C15.kw k) (list_ascii_of_string text) = None.
+
+Lemma spec_flag_head k s : spec_flag k s = match strip_head k s with Some s4 => tail_ok WS s4 | None => false end.
+Proof. unfold spec_flag, strip_head. destruct (strip_prefix slashes (dropw is_ws s)); reflexivity. Qed.
+
+Theorem C09_unrecognised_by_shape : forall text, no_head text -> unrecognised_line text.
+Proof.
+  intros text H. unfold unrecognised_line.
+  rewrite C15.C15_implements_exact, C15.C15_constructor_exact, C15.C15_immutable_exact, C15.C15_testonly_exact, C15.C15_packageonly_exact.
+  unfold C15.ctor_line, C15.pkgo_line, spec_list_line. rewrite !spec_flag_head.
+  rewrite (H "@implements"), (H "@constructor"), (H "@immutable"), (H "@testonly"), (H "@packageonly") by (cbn; tauto).
+  repeat split; reflexivity.
+Qed.
+
+Lemma strip_prefix_in a k : forall s s', strip_prefix (a :: k) s = Some s' -> In a s.
+Proof. intros s s' H. apply strip_prefix_spec in H. subst. left. reflexivity. Qed.
+
+Lemma dropw_incl p (s : list ascii) x : In x (dropw p s) -> In x s.
+Proof. induction s as [|y s IH]; simpl; [auto|]. destruct (p y); [intros H; right; apply IH; exact H|auto]. Qed.
+
+Theorem C09_no_at_sign_no_annotation :
+  forall text, ~ In "@"%char (list_ascii_of_string text) -> unrecognised_line text.
+Proof.
+  intros text H. apply C09_unrecognised_by_shape. intros k Hk.
+  assert (Hat : exists r, C15.kw k = "@"%char :: r) by (cbn in Hk; repeat (destruct Hk as [<-|Hk]; [eexists; reflexivity|]); contradiction).
+  destruct Hat as [r Hr]. rewrite Hr. unfold strip_head.
+  destruct (strip_prefix slashes (dropw is_ws (list_ascii_of_string text))) as [s2|] eqn:E1; [|reflexivity].
+  destruct (strip_prefix ("@"%char :: r) (dropw is_ws s2)) as [s4|] eqn:E2; [|reflexivity].
+  exfalso. apply H. apply strip_prefix_in in E2. apply dropw_incl in E2.
+  apply strip_prefix_spec in E1. apply (dropw_incl is_ws). rewrite E1. apply in_or_app. right. exact E2.
+Qed.
+
 (* non-vacuity: near-miss lines are unrecognised, real ones are not *)
 Example C09_nonvacuous :
   map x_parse_immutable ["// @immutable"; "// see @immutable"; "// @Immutable"; "// @immutablex"; "/* @immutable */"; "// @ immutable"; "//@immutable because"]
@@ -50,3 +89,5 @@ Proof. vm_compute. repeat split; reflexivity. Qed.
 
 Print Assumptions C09_nothing_collected.
 Print Assumptions C09_silent.
+Print Assumptions C09_unrecognised_by_shape.
+Print Assumptions C09_no_at_sign_no_annotation.
